@@ -773,12 +773,12 @@ func c04Configs(thorough bool) []c04Cfg {
 		c04Cfg{Name: "vs-n7-3dec", N: 7, D: 3, T: 1},
 		c04Cfg{Name: "vs-n8-3dec", N: 8, D: 3, T: 1},
 		c04Cfg{Name: "vs-n10-2dec", N: 10, D: 2, T: 1},
-		c04Cfg{Name: "vs-n6-full-d7", N: 6, D: 3, T: 2, MaxDepth: 7},
-		c04Cfg{Name: "vs-n7-full-d7", N: 7, D: 3, T: 2, MaxDepth: 7},
 		c04Cfg{Name: "hvs-n2", N: 2, D: 2, T: 1, HVS: true},
-		c04Cfg{Name: "hvs-n2-full", N: 2, D: 3, T: 2, HVS: true, MaxDepth: 6},
-		c04Cfg{Name: "hvs-n3-d6", N: 3, D: 3, T: 1, HVS: true, MaxDepth: 6},
-		c04Cfg{Name: "hvs-n4-d6", N: 4, D: 2, T: 1, HVS: true, MaxDepth: 6},
+		c04Cfg{Name: "hvs-n2-full-d5", N: 2, D: 3, T: 2, HVS: true, MaxDepth: 5},
+		c04Cfg{Name: "hvs-n3-d5", N: 3, D: 3, T: 1, HVS: true, MaxDepth: 5},
+		c04Cfg{Name: "hvs-n4-d5", N: 4, D: 2, T: 1, HVS: true, MaxDepth: 5},
+		c04Cfg{Name: "vs-n6-full-d6", N: 6, D: 3, T: 2, MaxDepth: 6},
+		c04Cfg{Name: "vs-n7-full-d5", N: 7, D: 3, T: 2, MaxDepth: 5},
 	)
 	return cs
 }
